@@ -19,7 +19,7 @@ from multiprocessing import Pool
 
 
 class Variant:
-    def __init__(self, name, kind, file, old=None, new=None, expect=None, function=None, count=1, also=(), lines=(), scope=None):
+    def __init__(self, name, kind, file, old=None, new=None, expect=None, function=None, count=1, also=(), lines=(), scope=None, transform=None):
         self.name = name
         self.kind = kind            # 'break' | 'neutral'
         self.file = file            # path relative to repo root
@@ -30,6 +30,7 @@ class Variant:
         self.count = count          # which occurrence (1-based); 0 = all
         self.also = also            # extra (file, old, new, count) edits applied together
         self.scope = scope          # text marker (e.g. 'def randmio_dir('): edits apply from its first occurrence on
+        self.transform = transform  # picklable callable: source text of `file` -> new text (applied first)
         self.lines = lines          # [(lineno, expected_stripped_text, replacement_line_without_indent)] line edits in `file`
 
 
@@ -68,6 +69,15 @@ def _run_variant(args):
     tmp = tempfile.mkdtemp(prefix='sa-selftest-')
     try:
         copy_tree(root, tmp)
+        if v.transform is not None:
+            p = os.path.join(tmp, v.file)
+            with open(p) as f:
+                text = f.read()
+            t2 = v.transform(text)
+            if t2 is None or t2 == text:
+                return (v.name, 'skipped', 'transform not applicable')
+            with open(p, 'w') as f:
+                f.write(t2)
         if v.lines:
             p = os.path.join(tmp, v.file)
             with open(p) as f:
@@ -148,3 +158,67 @@ def run_for(pid, root, rep, seed=0, jobs=16):
     if not rep.quiet:
         print('selftest %s: %d variants, %d ok, %d fail-closed, %d skipped, %d blind, %d noisy' % (
             pid, len(res), summ['ok'], summ['ok-error'], summ['skipped'], summ['blind'], summ['noisy']))
+
+
+# ------------------------------------------------------------------ generic behaviour-preserving transforms
+import ast as _ast
+import functools as _functools
+
+
+def _rename_locals(funcname, suffix, text):
+    """Rename every local variable (not parameters, not globals/imports) of function `funcname` (top-level or nested, first match)
+    by appending `suffix`; applied consistently inside the function's whole span (nested helpers included)."""
+    try:
+        tree = _ast.parse(text)
+    except SyntaxError:
+        return None
+    target = None
+    for n in _ast.walk(tree):
+        if isinstance(n, (_ast.FunctionDef, _ast.AsyncFunctionDef)) and n.name == funcname:
+            target = n
+            break
+    if target is None:
+        return None
+    params = set()
+    nested_names = set()
+    for n in _ast.walk(target):
+        if isinstance(n, (_ast.FunctionDef, _ast.AsyncFunctionDef, _ast.Lambda)):
+            a = n.args
+            for x in a.posonlyargs + a.args + a.kwonlyargs:
+                params.add(x.arg)
+            if a.vararg:
+                params.add(a.vararg.arg)
+            if a.kwarg:
+                params.add(a.kwarg.arg)
+            if n is not target and not isinstance(n, _ast.Lambda):
+                nested_names.add(n.name)
+    glob = set()
+    for n in _ast.walk(target):
+        if isinstance(n, (_ast.Global, _ast.Nonlocal)):
+            glob |= set(n.names)
+        if isinstance(n, (_ast.Import, _ast.ImportFrom)):
+            for al in n.names:
+                glob.add((al.asname or al.name).split('.')[0])
+    stored = {n.id for n in _ast.walk(target) if isinstance(n, _ast.Name) and isinstance(n.ctx, (_ast.Store, _ast.Del))}
+    ren = stored - params - glob - nested_names
+    ren = {x for x in ren if not x.startswith('__')}
+    if not ren:
+        return None
+    edits = []
+    for n in _ast.walk(target):
+        if isinstance(n, _ast.Name) and n.id in ren:
+            edits.append((n.lineno, n.col_offset, len(n.id), n.id + suffix))
+    lines = text.split('\n')
+    # col_offset is in utf-8 bytes; the package sources are ascii in code positions
+    for (ln, col, ln_len, new) in sorted(edits, reverse=True):
+        line = lines[ln - 1]
+        b = line.encode('utf-8')
+        if b[col:col + ln_len].decode('utf-8', 'replace') != new[:-len(suffix)]:
+            return None
+        lines[ln - 1] = (b[:col] + new.encode() + b[col + ln_len:]).decode('utf-8')
+    return '\n'.join(lines)
+
+
+def rename_locals(file, funcname, suffix='_r'):
+    """neutral Variant: all locals of `funcname` renamed"""
+    return Variant('neutral: locals of %s renamed' % funcname, 'neutral', file, transform=_functools.partial(_rename_locals, funcname, suffix))
